@@ -6,7 +6,7 @@ are made in.  A caller may legitimately have changed the working directory, poin
 package's own data directory, set numpy's print options or error state, silenced warnings, made calls from another thread than the one that imported the library, or have a
 garbage collector that runs at other moments.  Every answer must be the same.
 
-The runner picks, per task, a subset of these perturbations as a pure function of (VERIF_SEED, property, task name)
+The runner picks, per task, a subset of these perturbations as a pure function of (VERIF_SEED, position of the task)
 and applies it before the task body runs (VERIF_AMBIENT=plain switches the layer off, VERIF_AMBIENT=cwd,numpy,…
 forces a subset).  The oracles do not depend on any of this state (absolute paths, no printing of numpy values);
 decimal arithmetic of the oracles runs in the explicit context of pbt/dec.py.  The chosen subset is recorded in the evidence (`extra.ambient`) and appended
@@ -47,14 +47,20 @@ SUBMODULES = ["activation", "constants", "core", "covalent_radius", "cromermann"
               "fasta", "formulas", "magnetic_ff", "mass", "nsf", "nsf_resonances", "util", "xsf"]
 
 
-def choose(seed, prop, task, mod=None):
+def choose(seed, prop, task, mod=None, idx=None):
     forced = os.environ.get("VERIF_AMBIENT")
     if forced is not None:
         got = [b for b in forced.replace("plain", "").split(",") if b]
         on = [b for b in BITS if b in got]
     else:
-        h = hashlib.blake2b(repr((seed, prop, task, "ambient")).encode(), digest_size=16).digest()
-        on = [b for i, b in enumerate(BITS) if h[i] & 1]
+        if idx is None:
+            h = hashlib.blake2b(repr((seed, prop, task, "ambient")).encode(), digest_size=16).digest()
+            on = [b for i, b in enumerate(BITS) if h[i] & 1]
+        else:
+            # a fixed pattern over the task list: perturbation j is on in task idx iff bit (j mod 3) of idx + seed is set,
+            # so every perturbation is on in about half the tasks of every run, sibling tasks (…-a, …-b) get
+            # complementary sets, and another seed shifts the assignment
+            on = [b for j, b in enumerate(BITS) if ((idx + seed) >> (j % 3)) & 1]
     if prop in NO_PRELOAD:
         on = [b for b in on if b not in ("imports", "thread")]
     if prop in NO_PRELOAD:
